@@ -22,6 +22,10 @@ const (
 	// TransactionCacheFactor is a multiple of cache size to reduce
 	// transactions by, to avoid high memory usage.
 	TransactionCacheFactor = DefaultParallelTransactions
+
+	// minCacheSize is the smallest size the underlying 2Q LRU accepts; with
+	// fewer entries its recent queue would be empty and construction fails.
+	minCacheSize = 4
 )
 
 type (
@@ -118,6 +122,12 @@ func NewCache(b Backend, size int, logger log.Logger, metricSink metrics.MetricS
 func newCache(b Backend, size int, logger log.Logger, metricSink metrics.MetricSink) Cache {
 	if size <= 0 {
 		size = DefaultCacheSize
+	}
+	if size < minCacheSize {
+		// lru.New2Q rejects smaller sizes and we would be left with a nil
+		// LRU; this is reachable through transaction caches, which are
+		// 1/TransactionCacheFactor of the configured cache size.
+		size = minCacheSize
 	}
 
 	pm := pathmanager.New()
